@@ -129,7 +129,26 @@ pub fn topologies(thorough: bool) -> Vec<Topo> {
         f[2].speed_limits = vec![(0.0, 1200.0, 12.0)];
         f[4].speed_limits = vec![(0.0, 4000.0, 12.0)];
         f[5].speed_limits = vec![(0.0, 300.0, 8.0)];
-        v.push(finish("double-track", f, vec![("W", vec![1]), ("E", vec![7])], vec![(0, 1, true), (1, 0, false)]));
+        v.push(finish("double-track", f.clone(), vec![("W", vec![1]), ("E", vec![7])], vec![(0, 1, true), (1, 0, false)]));
+        // the same tracks with lockout declarations on links a held follower is rewound over (B1 x A2):
+        // a roll-back then has to give back the blocks of the locked-out links together with the link's own
+        let mut g = f.clone();
+        g[2].lockout = vec![4];
+        g[3].lockout = vec![3];
+        v.push(finish("double-track-locked", g, vec![("W", vec![1]), ("E", vec![7])], vec![(0, 1, true), (1, 0, false)]));
+        // every roll-back of the family hands back the origin link and A1: declarations on exactly those links
+        // (A1 x B1: the first parallel section is one interlocking; YW x YE: the two single-track terminals)
+        let mut g = f.clone();
+        g[1].lockout = vec![3];
+        g[2].lockout = vec![2];
+        v.push(finish("double-track-locked-a1", g, vec![("W", vec![1]), ("E", vec![7])], vec![(0, 1, true), (1, 0, false)]));
+        let mut g = f.clone();
+        g[0].lockout = vec![7];
+        g[6].lockout = vec![1];
+        v.push(finish("double-track-locked-yards", g, vec![("W", vec![1]), ("E", vec![7])], vec![(0, 1, true), (1, 0, false)]));
+        // (NOT generated: A1 x B2 -- the route A1 -> X -> B2 would contain two mutually exclusive links less than a train
+        // length apart; the dispatcher then reports an infinite arrival time on B2 instead of an error.  Observation,
+        // DESIGN 6, not claimed as a finding: such a route can never be run.)
     }
     // T8: two-track terminals joined by double track with one crossover
     //     W1(1) -> A(3) -> E1(5) | X(7) -> E2(6);   W2(2) -> B(4) -> E2(6)
